@@ -56,6 +56,15 @@ def analyze(modname, key, timeout, ppt, twin=False, extra_pre=()):
     from crosshair.options import AnalysisOptionSet
     from crosshair.statespace import MessageType
     fn = h.fn
+    # CrossHair may replace a call to a function that itself carries a contract by that contract's postcondition
+    # (short-circuiting), which would make a harness vacuous: refuse harnesses that call contracted helpers.
+    import inspect as _insp0
+    import types as _types
+    cv = _insp0.getclosurevars(fn)
+    for _nm, _obj in list(cv.nonlocals.items()) + list(cv.globals.items()):
+        if isinstance(_obj, _types.FunctionType) and _obj is not fn and _obj.__doc__ and 'post:' in _obj.__doc__:
+            return {"key": key, "module": modname, "verdict": "error",
+                    "message": "harness calls helper %s which carries its own contract (would be short-circuited)" % _nm}
     counter = collections.Counter()
     opts = AnalysisOptionSet(per_condition_timeout=float(timeout), report_all=True,
                              per_path_timeout=float(ppt) if ppt else None)
